@@ -34,7 +34,7 @@ def shard_fn(shard, nshards, seed, tier, exe, ninputs):
         else:
             # every 2-split (n<=256), every 3-split (n<=32), all-1-byte, 8 random partitions, 8 flag sets
             cmds = ["X 0xff 32 8 %d x%s" % (sd, s.hex())]
-            if rng.random() < 0.15:
+            if rng.random() < 0.15 or kind in ("literal", "listed-witness"):
                 cmds.append("T 0x0f 4 %d x%s" % (sd, s.hex()))
         cases.append((cid, cmds))
         meta[cid] = (kind, s)
